@@ -11,6 +11,7 @@ import (
 	"io"
 	"sort"
 	"strings"
+	"sync"
 	"time"
 
 	"github.com/PowerDNS/lightningstream/config"
@@ -108,7 +109,17 @@ type Inst struct {
 	Seen       Seen
 	Conf       config.Config
 	LC         config.LMDB
+	held       *heldApp // an application transaction that is still open (holds the write lock)
 }
+
+// heldApp: an application write transaction that stays open until released.
+type heldApp struct {
+	release chan struct{}
+	done    chan error
+	once    sync.Once
+}
+
+func (h *heldApp) free() { h.once.Do(func() { close(h.release) }) }
 
 type BlobInfo struct {
 	Name string
@@ -179,7 +190,8 @@ func New(o Options) *Fleet {
 }
 
 func (f *Fleet) Close() {
-	for _, in := range f.Insts {
+	for i, in := range f.Insts {
+		_ = f.FinishHeld(i)
 		in.Env.Close()
 	}
 }
@@ -200,9 +212,53 @@ type Change struct {
 
 // AppCommit applies the changes in one application transaction on instance i.
 func (f *Fleet) AppCommit(i int, changes []Change) error {
+	if err := f.FinishHeld(i); err != nil {
+		return err
+	}
+	return f.appCommit(i, changes, nil)
+}
+
+// AppHold performs the changes in an application transaction that stays OPEN - holding the LMDB write lock
+// of instance i - until FinishHeld, or until 2 ms after the next Merge on that instance has started (the
+// merge then waits for the lock, and whatever it read before is stale when it gets it).
+func (f *Fleet) AppHold(i int, changes []Change) error {
+	if err := f.FinishHeld(i); err != nil {
+		return err
+	}
+	h := &heldApp{release: make(chan struct{}), done: make(chan error, 1)}
+	holding := make(chan struct{})
+	go func() { h.done <- f.appCommit(i, changes, func() { close(holding); <-h.release }) }()
+	select {
+	case <-holding:
+	case err := <-h.done:
+		return fmt.Errorf("held transaction ended early: %v", err)
+	case <-time.After(20 * time.Second):
+		h.free()
+		return fmt.Errorf("no write lock within 20 s")
+	}
+	f.Insts[i].held = h
+	return nil
+}
+
+// FinishHeld lets an open application transaction of instance i commit and waits for it.
+func (f *Fleet) FinishHeld(i int) error {
+	in := f.Insts[i]
+	h := in.held
+	if h == nil {
+		return nil
+	}
+	in.held = nil
+	h.free()
+	return <-h.done
+}
+
+func (f *Fleet) appCommit(i int, changes []Change, hold func()) error {
 	in := f.Insts[i]
 	before := lm.LastTxnID(in.Env.Env)
 	err := in.Env.Update(func(txn *lmdb.Txn) error {
+		if hold != nil {
+			defer hold()
+		}
 		for _, ch := range changes {
 			fl := uint(lmdb.Create)
 			if ch.DBI == IntKeyDBI {
@@ -441,7 +497,16 @@ func (f *Fleet) Merge(i int, blobName string) (wrote bool, localChanged bool, er
 		return false, false, err
 	}
 	before := lm.LastTxnID(in.Env.Env)
+	if h := in.held; h != nil {
+		go func() {
+			time.Sleep(2 * time.Millisecond)
+			h.free()
+		}()
+	}
 	txnID, lc, err := in.S.LoadOnce(f.Ctx, in.Env.Env, ni.InstanceID, snapshot.Update{Snapshot: snap, NameInfo: ni}, in.LastSynced)
+	if herr := f.FinishHeld(i); herr != nil && err == nil {
+		err = fmt.Errorf("harness: held application transaction: %v", herr)
+	}
 	if err != nil {
 		return false, false, fmt.Errorf("LoadOnce(%s) on %s: %w", blobName, in.Name, err)
 	}
@@ -534,7 +599,13 @@ func (f *Fleet) Quiesce() (rounds int, err error) {
 	for r := 0; r < 2*n+2; r++ {
 		changed := false
 		for i, in := range f.Insts {
-			need := r == 0 || header.TxnID(lm.LastTxnID(in.Env.Env)) > in.LastSynced || in.Dirty
+			if err := f.FinishHeld(i); err != nil {
+				return r, err
+			}
+			// like the sync loop: an instance uploads when it has never done so, or when its LMDB has changed
+			// since the last transaction it synced (shadow mode: the harness-owned capture passes are not
+			// part of that bookkeeping, so the first round uploads unconditionally there)
+			need := (r == 0 && (!f.Native || f.NewestBlobOf(in.Name) == "")) || header.TxnID(lm.LastTxnID(in.Env.Env)) > in.LastSynced || in.Dirty
 			if need {
 				if lm.LastTxnID(in.Env.Env) == 0 && !in.Dirty {
 					continue // empty LMDB: the loop would not upload either
